@@ -304,9 +304,10 @@ class extract_visitor(NodeVisitor):
 
         for it in items:
             if it.optional_vars:
+                eend = get_expr_end(it.context_expr)
                 for nn, _idx in get_indexes_for_target(it.optional_vars, [], []):
                     name = nn  # type: ast.Name # type: ignore[assignment]
-                    self.flow.add_name(AssignedName(name.id, np(node.body[0]), np(name), node))
+                    self.flow.add_name(AssignedName(name.id, eend, np(name), node))
 
         self.generic_visit(node)
 
